@@ -329,6 +329,7 @@ func runC06(c *fw.Ctx) {
 		}
 	}
 	if c.Shard == 0 {
+		c06CreateOver(c)
 		now := Clocks(LP.Archs, false, []string{"mid"})[0]
 		cfg := ACfg{Tag: LP.Tag, Spec: LP.Spec, Archs: LP.Archs, Method: 2, XFF: 0, Page: 4096}
 		e := &Explorer{C: c, Cfg: cfg, Now0: now, Depth: 2, Gen: c01Gen(cfg.Archs), Judge: c06FormatJudge, MaxCore: 12}
@@ -348,6 +349,14 @@ func replayC06(c *fw.Ctx, raw json.RawMessage) (bool, string) {
 	}
 	var k c06Case
 	json.Unmarshal(raw, &k)
+	if k.Kind == "create-over" {
+		c2 := &fw.Ctx{Prop: c.Prop, Tier: "quick", Of: 1, Dir: c.Dir, Deadline: c.Deadline, R: fw.NewResult()}
+		c06CreateOver(c2)
+		for _, v := range c2.R.Violations {
+			return true, v.Desc
+		}
+		return false, "Create over existing files leaves exact-length files"
+	}
 	k.Cfg.Archs = wsp.ParseLayout(k.Cfg.Spec)
 	vrt.SetPagesize(k.Cfg.Page)
 	p := filepath.Join(c.Dir, "x.wsp")
@@ -367,4 +376,41 @@ func replayC06(c *fw.Ctx, raw json.RawMessage) (bool, string) {
 	}
 	msg := c06Fetch(g, w, Window{k.From, k.Until}, k.Now)
 	return msg != "", msg
+}
+
+// c06CreateOver: Create with caller-supplied open flags over an existing file that is larger, smaller or equal
+// in size: after Sync the file must still be exactly header + 12 x points long and parse as a classic file.
+func c06CreateOver(c *fw.Ctx) {
+	for _, tag := range []string{"L2", "L5", "L9"} {
+		ld := LayoutByTag(tag)
+		l := wsp.Layout{Archs: ld.Archs, Method: 2, XFF: 0.5}
+		want := l.FileSize()
+		for _, pre := range []int64{0, 1, want - 1, want, want + 1, want + 1500, 3 * want} {
+			for _, flags := range []int{os.O_RDWR | os.O_CREATE, os.O_RDWR | os.O_CREATE | os.O_TRUNC} {
+				p := filepath.Join(c.Dir, "over.wsp")
+				junk := bytes.Repeat([]byte{0xab}, int(pre))
+				os.WriteFile(p, junk, 0644)
+				vrt.SetPagesize(4096)
+				db, err := wt.Create(p, archList(l.Archs), wt.Sum, 0.5, wt.WithOpenFileFlag(flags))
+				c.Count("transitions", 1)
+				if err != nil {
+					continue
+				}
+				db.UpdatePointForArchive(0, wt.Timestamp(1700000000), 1, wt.Timestamp(1700000000))
+				serr := db.Sync()
+				db.Close()
+				b, _ := os.ReadFile(p)
+				if serr != nil {
+					continue
+				}
+				if int64(len(b)) != want {
+					c.Violate("C06/format/length/create-over-existing-file", fmt.Sprintf("layout %s: Create (open flags %#x) over an existing %d-byte file leaves %d bytes, the layout needs exactly %d", ld.Spec, flags, pre, len(b), want), int(pre), c06Case{Kind: "create-over"}, "")
+					continue
+				}
+				if _, err := wsp.Parse(b[:want]); err != nil && pre <= want {
+					c.Violate("C06/format/layout/create-over-existing-file", fmt.Sprintf("layout %s: Create over an existing %d-byte file: %v", ld.Spec, pre, err), int(pre), c06Case{Kind: "create-over"}, "")
+				}
+			}
+		}
+	}
 }
